@@ -53,7 +53,7 @@ theorem binvH_init (c) : BInvH c binit := by
 
 set_option hygiene false in
 macro "bh_post" : tactic => `(tactic| (
-  all_goals (constructor <;> first | assumption | (simp only [upd, upd2, lockS, unlockS, newHelper] at * <;>
+  all_goals (constructor <;> first | assumption | (simp only [upd, upd2, lockS, unlockS, newHelper, nestOn, csOn, nestOff] at * <;>
     grind [upd, BPc.bar, BPc.waiting, BPc.futZero, → futZero_bar, → waiting_bar]))))
 
 set_option hygiene false in
